@@ -9,6 +9,9 @@ CHECKS = {
  "C09": dict(engine="E+P", design="5/C09",
    technique="explicit-state BFS over operation histories of the real FSA object vs a set model (state de-duplication incl. list-aliasing pattern); exhaustive enumeration of kbmag tables",
    text="All operation histories up to the stated depth over a 3-vertex/2-label (thorough: also 3-label and 4-vertex) universe, from every construction route, are executed on real FSA objects; in every reached state the three views are compared with a set model. All kbmag tables with <=2 (thorough 3) states x spacing/interval styles are parsed and compared. Bounded-exhaustive: no history within the bound is skipped."),
+ "C12": dict(engine="P", design="5/C12",
+   technique="bounded-exhaustive enumeration of (entry point x value x packaging) and (geometric function x lattice input x per-unit rescaling pattern in {1,-1,2.5,-0.3}^units), metamorphic oracle between runs plus closed-form formulas",
+   text="Every documented scalar/array entry point is called with every packaging of each table value (Python/NumPy scalars, 0-d arrays, lists, tuples, float32, integer packagings of integral values, Coxeter labels incl. infinite ones) and must give the same floating, usable result as the float64 packaging (and the closed-form value where one exists); README/docstring snippets are executed literally. Every listed geometric function is evaluated on every lattice input under every per-unit rescaling pattern and compared with the unscaled output. Complete over the stated tables; one NumPy version only."),
 }
 NA = {}
 ALL = ["C%02d" % i for i in range(1, 21)]
